@@ -471,7 +471,8 @@ fn items02(tier: Tier) -> Vec<Item02> {
                 lo = hi + 1;
             }
         }
-        for l in if q { vec![64usize, 256] } else { vec![64usize, 128, 256, 512] } {
+        // 71, 100, 509: not multiples of 8, the constructors round the filter length up
+        for l in if q { vec![64usize, 71, 256] } else { vec![64usize, 71, 100, 128, 256, 509, 512] } {
             for cc in [true, false] {
                 v.push(Item02::Sinc { window: w, l, cc });
             }
